@@ -1,6 +1,7 @@
 package main
 
 import (
+	"go/ast"
 	"fmt"
 	"strings"
 
@@ -39,9 +40,45 @@ func ruleLoopProgress(c *Ctx, rid string) {
 		c.undecided(rid, "anchor/cursor-advance", "", "no function incrementing proto.Array.index found: the cursor model does not match the code")
 	}
 	n := 0
+	// the loops that can run on behalf of a connection or of the lifecycle API: functions
+	// reachable from the goroutine roots, the lifecycle API, the registered executors and the
+	// methods of the example server (its handlers are reached through interfaces). Exported
+	// helpers nothing in the repository calls cannot stall a connection of this server.
+	var roots []*ssa.Function
+	for _, r := range concurrencyRoots(c.P) {
+		roots = append(roots, r.Fn)
+	}
+	execs, _ := c.P.executors()
+	for _, e := range execs {
+		roots = append(roots, e.Fn)
+	}
+	for _, f := range c.P.RepoFuncs(pkgExSrv) {
+		if f.Signature.Recv() != nil && f.Parent() == nil {
+			roots = append(roots, f)
+		}
+	}
+	for _, f := range c.P.RepoFuncs(pkgProto) {
+		if f.Signature.Recv() != nil && f.Parent() == nil && ast.IsExported(f.Name()) {
+			roots = append(roots, f) // the parser/serializer API used by handlers and by tests of applications
+		}
+	}
+	live := c.P.repoReach(roots, func(f *ssa.Function) bool { return inRepo(f) })
+	for f := range live {
+		for _, a := range f.AnonFuncs {
+			live[a] = true
+		}
+	}
 	var fns []*ssa.Function
-	fns = append(fns, c.P.RepoFuncs(pkgRedis)...)
-	fns = append(fns, c.P.RepoFuncs(pkgExSrv)...)
+	skipped := 0
+	for _, f := range append(c.P.RepoFuncs(pkgRedis), c.P.RepoFuncs(pkgExSrv)...) {
+		if live[f] || (f.Parent() != nil && live[f.Parent()]) {
+			fns = append(fns, f)
+		} else if len(naturalLoops(f)) > 0 && inProd(f) {
+			skipped++
+			c.note("loops of %s are not checked: nothing in the repository reaches it from a connection or the lifecycle API", fnName(f))
+		}
+	}
+	c.count("unreachable-functions-with-loops", skipped)
 	for _, fn := range fns {
 		loops := naturalLoops(fn)
 		if len(loops) == 0 {
